@@ -9,7 +9,7 @@ seeded.py eval <name> [props...]              apply /verif/seeded/<name>/patch.d
 """
 import json, os, shutil, subprocess, sys, time
 
-SEEDED = "/verif/seeded"
+SEEDED = os.environ.get("SEEDED_DIR", "/verif/seeded")
 PROPS = ["C%02d" % i for i in range(1, 21)]
 ENV = dict(os.environ, CARGO_NET_OFFLINE="true")
 
